@@ -47,13 +47,18 @@ static const size_t BND[] = { 0, 1, 15, 16, 17, 31, 32, 33, 63, 64, 65, 127, 128
 static int is_bnd(size_t l) { size_t i; for (i = 0; i < NBND; i++) if (BND[i] == l) return 1; return 0; }
 static size_t MAXL;
 
-static unsigned char K32[32], N24[32];   /* N24: nonce buffer, 32 bytes because AEGIS-256 takes a 32-byte nonce */
+/* keys and nonces also sit at every alignment offset (a key loaded with an aligned vector load would fault for some of them): the pointers are
+ * re-seated at the start of every apis_len / apis_fixed call as a function of the alignment parameter */
+static unsigned char KMASTER[32], NMASTER[32], KBUF[32 + 16], NBUF[32 + 16];
+static unsigned char *K32 = KBUF, *N24 = NBUF;   /* N24: nonce buffer, 32 bytes because AEGIS-256 takes a 32-byte nonce */
+static void seat_keys(int A) { K32 = KBUF + ((A * 3 + 1) & 15); N24 = NBUF + ((A * 7 + 2) & 15); memcpy(K32, KMASTER, 32); memcpy(N24, NMASTER, 32); }
 typedef unsigned long long ull;
 
 /* ---------------- per-length API calls ---------------- */
 static void apis_len(size_t L, int A)
 {
     unsigned char *m, *c, *t, *ad, *o; ull ol; int A2 = (A * 5 + 3) & 15; size_t adl = (L * 3) % 41;
+    seat_keys(A);
     /* stream ciphers */
 #define STREAM(name) CALL("crypto_stream_" #name, L, 0, A); c = xout(L, A); crypto_stream_##name(c, L, N24, K32); xfree(); \
     CALL("crypto_stream_" #name "_xor", L, 0, A); m = xin(L, A2); c = xout(L, A); crypto_stream_##name##_xor(c, m, L, N24, K32); xfree();
@@ -143,6 +148,7 @@ static void apis_len(size_t L, int A)
 static void apis_fixed(int A)
 {
     unsigned char *a, *b, *o;
+    seat_keys(A);
     CALL("crypto_scalarmult", 32, 0, A); a = xin(32, A); b = xin(32, A); o = xout(32, A); crypto_scalarmult(o, a, b); crypto_scalarmult_base(o, a); crypto_box_beforenm(o, b, a); xfree();
     CALL("crypto_scalarmult_ed25519", 32, 0, A); a = xin(32, A); b = xout(32, A); o = xout(32, A); crypto_scalarmult_ed25519_base(b, a); crypto_scalarmult_ed25519(o, a, b); crypto_scalarmult_ed25519_noclamp(o, a, b); crypto_scalarmult_ed25519_base_noclamp(o, a);
     crypto_core_ed25519_is_valid_point(b); crypto_core_ed25519_add(o, b, b); crypto_core_ed25519_sub(o, b, b); crypto_core_ed25519_from_uniform(o, a); crypto_sign_ed25519_pk_to_curve25519(o, b); xfree();
@@ -234,7 +240,7 @@ int main(int argc, char **argv)
     vf_init_seed(); thorough = vf_tier_thorough(); MAXL = thorough ? 1100 : 300;
     signal(SIGABRT, on_abort); signal(SIGSEGV, on_abort); signal(SIGBUS, on_abort); signal(SIGILL, on_abort); signal(SIGFPE, on_abort);
     if (sodium_init() < 0) return 2;
-    vf_pat(K32, 32, PAT_R2, 1201); vf_pat(N24, 32, PAT_C, 1202);
+    vf_pat(KMASTER, 32, PAT_R2, 1201); vf_pat(NMASTER, 32, PAT_C, 1202); seat_keys(0);
     printf("INFO features avx512f=%d avx2=%d ssse3=%d sse2=%d aesni=%d\n", sodium_runtime_has_avx512f(), sodium_runtime_has_avx2(), sodium_runtime_has_ssse3(), sodium_runtime_has_sse2(), sodium_runtime_has_aesni());
     for (pass = 0; pass < 2; pass++) {
         guard_pass = pass;
